@@ -228,7 +228,7 @@ fn server_history(seq: &[usize]) -> Result<Option<(String, Value)>, String> {
     let restart = alpha.len();
     let mut sess = Session::new("c19")?;
     let mut want: Vec<RecordKind> = vec![];
-    let mut ops: Vec<usize> = seq.clone();
+    let mut ops: Vec<usize> = seq.to_vec();
     ops.push(restart); // the final shutdown
     for o in &ops {
         if *o == restart {
@@ -271,7 +271,7 @@ fn server_history(seq: &[usize]) -> Result<Option<(String, Value)>, String> {
 /// statistics file; after the final shutdown the real reader must return exactly the recorded
 /// kinds, in order, each with its own identifier, and the summary must count each once.
 fn server_sessions(report: &mut Report, tier: Tier) -> u64 {
-    use crate::c09::Session;
+
     crate::e3::sandbox_env();
     let alpha = alphabet();
     let k = alpha.len();
